@@ -612,6 +612,30 @@ Section Readers.
       + exfalso. apply (proj2 Hex); [right; exact Hw|reflexivity].
   Qed.
 
+  (* ... and reading by glob after such a sequence: the concatenation, in sorted key order, of
+     the records LAST written under each matching live key *)
+  Definition last_recs (ops : list (op R)) (b k : list N) : list R :=
+    match last_on ops b k None with Some (Some rs) => rs | _ => [] end.
+
+  Theorem session_read_glob : forall ops b p,
+    Forall op_ok ops -> existsb (writes_to b) ops = true ->
+    exists ks, ms_expand (run_ops ser enc [] ops) b p = Ok ks /\
+      StronglySorted key_le ks /\
+      (forall k, In k ks <-> glob_match p k = true /\ exists rs, last_on ops b k None = Some (Some rs)) /\
+      ms_read_glob de dec (run_ops ser enc [] ops) b p = Ok (flat_map (last_recs ops b) ks).
+  Proof.
+    intros ops b p Hok Hw.
+    destruct (session_expand ops b p Hok) as [_ H]. destruct (H Hw) as (ks0 & He & Hnd & Hin).
+    exists (expand_ref ks0 p). split; [exact He|].
+    destruct (expand_ref_spec ks0 p) as (Hs & Hm & _). split; [exact Hs|]. split.
+    - intros k. rewrite Hm, Hin. tauto.
+    - unfold ms_read_glob. rewrite He.
+      apply (read_all_concat R de dec). intros k Hk.
+      apply Hm in Hk. destruct Hk as [Hk _]. apply Hin in Hk. destruct Hk as (rs & Hl).
+      pose proof (session_read ops [] b k Hok) as Hr. unfold ms_read in Hr.
+      rewrite Hr. unfold last_recs. rewrite Hl. reflexivity.
+  Qed.
+
   (* ------------------------------------------------------------------------------ *)
   (* copies                                                                           *)
   (* ------------------------------------------------------------------------------ *)
